@@ -69,7 +69,7 @@ type Parser interface {
 // Loop is the repl-loop.
 func Loop(r lineReader, p Parser, vm *vm.Type, doOut bool) {
 	blocksOpen := 0
-	quotesOpen := 0
+	inString := false
 	bracketsOpen := 0
 	input := ""
 	sep := ""
@@ -80,13 +80,39 @@ func Loop(r lineReader, p Parser, vm *vm.Type, doOut bool) {
 			break
 		}
 
-		blocksOpen += strings.Count(line, "{") - strings.Count(line, "}")
-		quotesOpen += strings.Count(line, "\"") - strings.Count(line, "\\\"")
-		bracketsOpen += strings.Count(line, "[") - strings.Count(line, "]")
+		// count the brackets of the code only: not the ones inside string
+		// literals (which can span lines) or comments
+		for i := 0; i < len(line); i++ {
+			c := line[i]
+			if inString {
+				switch c {
+				case '\\':
+					i++
+				case '"':
+					inString = false
+				}
+				continue
+			}
+			if c == ';' {
+				break
+			}
+			switch c {
+			case '"':
+				inString = true
+			case '{':
+				blocksOpen++
+			case '}':
+				blocksOpen--
+			case '[':
+				bracketsOpen++
+			case ']':
+				bracketsOpen--
+			}
+		}
 		input += sep + line
 		sep = "\n"
 
-		if blocksOpen == 0 && quotesOpen%2 == 0 && bracketsOpen == 0 {
+		if blocksOpen == 0 && !inString && bracketsOpen == 0 {
 			processInput(input, p, vm, doOut)
 			sep = ""
 			input = ""
